@@ -26,7 +26,8 @@ theorem ginv_step {cfg : Cfg} {s s' : State} (a : Action) (hI : GInv cfg s)
   cases a with
   | connect =>
     simp only [step, Option.some.injEq] at h; subst h; exact ginv_connect hI
-  | send c r => exact ginv_updConn (good_cSend r) (Or.inl (stay_cSend r)) hI h
+  | send c r => exact ginv_updConn (good_cSend false r) (Or.inl (stay_cSend false r)) hI h
+  | sendNR c r => exact ginv_updConn (good_cSend true r) (Or.inl (stay_cSend true r)) hI h
   | accept c =>
     simp only [step] at h
     split at h
@@ -81,6 +82,7 @@ theorem ginv_step {cfg : Cfg} {s s' : State} (a : Action) (hI : GInv cfg s)
     · exact ginv_updConn (good_cStart i) (Or.inl (stay_cStart i)) hI h
   | fin c i => exact ginv_updConn (good_cFin i) (Or.inl (stay_cFin i)) hI h
   | write c i => exact ginv_updConn (good_cWrite i) (Or.inl (stay_cWrite i)) hI h
+  | skip c i => exact ginv_updConn (good_cSkip _ i) (Or.inl (stay_cSkip _ i)) hI h
   | dec c i => exact ginv_updConn (good_cDec i) (Or.inl (stay_cDec i)) hI h
   | drainClose c => exact ginv_updConn good_cDrainClose (Or.inl stay_cDrainClose) hI h
   | shutdownCall =>
